@@ -10,7 +10,10 @@ mod exec;
 mod e2e;
 mod c09;
 mod c09e;
+mod alloc;
+mod c08t;
 mod c11;
+mod c11e;
 mod c12;
 mod c13;
 mod c14;
@@ -28,6 +31,9 @@ static LAST_PANIC: std::sync::Mutex<String> = std::sync::Mutex::new(String::new(
 pub fn last_panic() -> String {
     LAST_PANIC.lock().unwrap().clone()
 }
+
+#[global_allocator]
+static GLOBAL: alloc::Counting = alloc::Counting;
 
 fn main() {
     std::panic::set_hook(Box::new(|info| {
@@ -61,7 +67,9 @@ fn main() {
         ("c07-control", _) => c07::cmd_control(&args[1..]),
         ("c09", "run") => c09::cmd_run(rest),
         ("c09", "e2e") => c09e::cmd_e2e(rest),
+        ("c08", "tablets") => c08t::cmd_tablets(rest),
         ("c11", "run") => c11::cmd_run(rest),
+        ("c11", "e2e") => c11e::cmd_e2e(rest),
         ("c12", "run") => c12::cmd_run(rest),
         ("c13", "run") => c13::cmd_run(rest),
         ("c13", "classify") => c13::cmd_classify(rest),
